@@ -135,7 +135,8 @@ Lemma snap_locs_gen : forall (all : list nat) (h : heap) (objs : list obj),
   flat_map sobj_locs
     (map (fun o => mkSobj (match o_kind o with KDict => true | KWl => false end)
                           (first_index (o_hdr o) all) (hget h (o_hdr o)) (hget h (o_hdr o))
-                          (map (fun r => (fst r, first_index (snd r) all, hget h (snd r))) (o_rows o))) objs)
+                          (map (fun r => (fst r, first_index (snd r) all, hget h (snd r))) (o_rows o))
+                          (o_strkeys o) (map (fun r => (fst r, first_index (snd r) all)) (o_stale o))) objs)
   = map (fun x => first_index x all) (flat_map obj_locs objs).
 Proof.
   intros all h. induction objs as [|o t IH]; [reflexivity|].
